@@ -6,6 +6,7 @@ import (
 	"strings"
 	"time"
 
+	"github.com/lightninglabs/lightning-node-connect/gbn"
 	"github.com/lightninglabs/lightning-node-connect/gbn/vrt"
 )
 
@@ -66,6 +67,19 @@ func monPrefix(w *World) {
 			}
 			if !bytes.Equal(g, acc[i]) {
 				kind := "altered"
+				// Narrower classes for the two chunking/timeout
+				// symptoms, so that a known finding about one of
+				// them does not hide any other corruption.
+				sendTimedOut := false
+				for _, c := range from.Calls {
+					if c.Kind == "send-timeout" {
+						sendTimedOut = true
+					}
+				}
+				if sendTimedOut && len(g) > len(acc[i]) && bytes.HasSuffix(g, acc[i]) &&
+					bytes.HasPrefix(acc[i], g[:len(g)-len(acc[i])]) {
+					kind = "merged-after-send-timeout"
+				}
 				for j, a := range acc {
 					if bytes.Equal(a, g) {
 						if j < i {
@@ -247,4 +261,174 @@ func finalClose(w *World, x *vrt.Exec) {
 			}
 		}
 	}
+}
+
+// finalAllDelivered: when the run ended without any endpoint closing, every
+// message accepted by Send has been returned by the peer's Recv. (Scenarios
+// that use it have a goal of "all scripts finished" and a horizon far beyond
+// any recovery time, so a miss is a lost message or a stall.)
+func finalAllDelivered(w *World, x *vrt.Exec) {
+	if w.C.Conn == nil || w.S.Conn == nil || len(w.findings) > 0 {
+		// (a run that was cut short by a monitor proves nothing about
+		// progress)
+		return
+	}
+	check := func(dir string, from, to *Endpoint) {
+		acc, got := accepted(from), received(to)
+		if len(got) < len(acc) {
+			closed := closedBeforeDrain(w, x)
+			if closed != "" {
+				w.reached["closed-before-delivery"] = true
+				if !w.sc.NoCloseAllowed {
+					return
+				}
+				w.fail("progress/closed/"+dir, "%s: connection closed (%s) with keepalive off and %d of %d accepted messages undelivered", dir, closed, len(acc)-len(got), len(acc))
+				return
+			}
+			w.fail(fmt.Sprintf("progress/undelivered/%s/len=%d", dir, len(acc[len(got)])),
+				"%s: %d messages accepted by Send, only %d returned by Recv after %v of virtual time with both ends open; first missing: %s (run ended: %s)",
+				dir, len(acc), len(got), x.Elapsed-w.sc.Cfg.DrainTime, short(acc[len(got)]), x.End)
+		}
+	}
+	check("c2s", w.C, w.S)
+	check("s2c", w.S, w.C)
+}
+
+// closedBeforeDrain reports which endpoint had shut down before the harness
+// drained the run ("" if none).
+func closedBeforeDrain(w *World, x *vrt.Exec) string {
+	out := ""
+	for _, e := range []*Endpoint{w.C, w.S} {
+		if e.closedAt >= 0 {
+			out += e.Name + " "
+		}
+	}
+	return strings.TrimSpace(out)
+}
+
+// monClosed records the first quiescent state at which an endpoint's quit
+// channel is closed.
+func monClosed(w *World) {
+	for _, e := range []*Endpoint{w.C, w.S} {
+		if e.Conn != nil && e.closedAt < 0 && e.Conn.VerifSnapshot().QuitClosed {
+			e.closedAt = w.s.Now()
+		}
+	}
+}
+
+// monWindow is the C09 oracle: white-box window invariants on both
+// endpoints and the black-box outstanding-packets bound from the wire log.
+func monWindow(w *World) {
+	for _, e := range []*Endpoint{w.C, w.S} {
+		if e.Conn == nil {
+			continue
+		}
+		s := e.Conn.VerifSnapshot()
+		if !s.Started {
+			continue
+		}
+		if s.S != s.N+1 || s.QueueS != s.S || s.S <= s.N {
+			w.fail("window/seqspace/"+e.Name, "%s: n=%d s=%d queue.s=%d: sequence space must be n+1 > n", e.Name, s.N, s.S, s.QueueS)
+		}
+		if s.Base >= s.QueueS || s.Top >= s.QueueS {
+			w.fail("window/range/"+e.Name, "%s: base=%d top=%d outside sequence space %d", e.Name, s.Base, s.Top, s.QueueS)
+		}
+		if s.Size > s.N {
+			w.fail("window/size/"+e.Name, "%s: queue size %d exceeds window n=%d (base=%d top=%d)", e.Name, s.Size, s.N, s.Base, s.Top)
+		}
+		if s.RecvSeq >= s.S {
+			w.fail("window/recvseq/"+e.Name, "%s: recvSeq=%d outside sequence space %d", e.Name, s.RecvSeq, s.S)
+		}
+	}
+	// Black box: first transmissions minus acknowledgements delivered.
+	blackBox := func(dir string, data, acks *Link, snd *Endpoint) {
+		if snd.Conn == nil {
+			return
+		}
+		snap := snd.Conn.VerifSnapshot()
+		if !snap.Started {
+			return
+		}
+		n, s := int(snap.N), int(snap.S)
+		if s == 0 {
+			return
+		}
+		// Merge the two wire logs by packet id (global send order) but
+		// acknowledgements only count once delivered; we use the
+		// order of delivery recorded by the link.
+		type evt struct {
+			at   int // ordering key
+			kind byte
+			seq  int
+		}
+		var evs []evt
+		data.mu.Lock()
+		for _, r := range data.wire {
+			m, err := safeDeserialize(r.Data)
+			if err != nil {
+				continue
+			}
+			if d, ok := m.(*gbn.PacketData); ok {
+				evs = append(evs, evt{r.Order, 'D', int(d.Seq)})
+			}
+		}
+		data.mu.Unlock()
+		acks.mu.Lock()
+		for _, r := range acks.deliveredLog {
+			m, err := safeDeserialize(r.Data)
+			if err != nil {
+				continue
+			}
+			switch a := m.(type) {
+			case *gbn.PacketACK:
+				evs = append(evs, evt{r.Order, 'A', int(a.Seq)})
+			case *gbn.PacketNACK:
+				evs = append(evs, evt{r.Order, 'N', int(a.Seq)})
+			}
+		}
+		acks.mu.Unlock()
+		sortEvts := func() {
+			for i := 1; i < len(evs); i++ {
+				for j := i; j > 0 && evs[j].at < evs[j-1].at; j-- {
+					evs[j], evs[j-1] = evs[j-1], evs[j]
+				}
+			}
+		}
+		sortEvts()
+		mbase, mtop := 0, 0 // unbounded model window [mbase, mtop)
+		for _, e := range evs {
+			switch e.kind {
+			case 'D':
+				if e.seq == mtop%s {
+					mtop++
+					if mtop-mbase > n {
+						w.fail("window/outstanding/"+dir,
+							"%s: %d data packets transmitted for the first time with only %d acknowledged by delivered ACK/NACKs: %d outstanding > N=%d",
+							dir, mtop, mbase, mtop-mbase, n)
+						return
+					}
+				}
+			case 'A':
+				for i := mbase; i < mtop; i++ {
+					if i%s == e.seq {
+						mbase = i + 1
+						break
+					}
+				}
+			case 'N':
+				if e.seq == mtop%s {
+					mbase = mtop
+				} else {
+					for i := mbase; i < mtop; i++ {
+						if i%s == e.seq {
+							mbase = i
+							break
+						}
+					}
+				}
+			}
+		}
+	}
+	blackBox("c2s", w.c2s, w.s2c, w.C)
+	blackBox("s2c", w.s2c, w.c2s, w.S)
 }
